@@ -300,9 +300,28 @@ func ruleMDINLINE(c *Ctx) []Obligation {
 					n++
 					v := exprString(as.Lhs[0])
 					found := false
+					isSet := func(st2 ast.Stmt) bool {
+						es, ok := st2.(*ast.ExprStmt)
+						return ok && strings.HasPrefix(strings.ReplaceAll(exprString(es.X), " ", ""), v+".SetID(")
+					}
 					for _, st2 := range list[i+1:] {
-						if es, ok := st2.(*ast.ExprStmt); ok && strings.HasPrefix(strings.ReplaceAll(exprString(es.X), " ", ""), v+".SetID(") {
+						if isSet(st2) {
 							found = true
+						}
+					}
+					// one SetID shared by all arms: a statement that follows the enclosing switch / if
+					// in a block around this one
+					if !found {
+						for _, outer := range lists {
+							for j, ost := range outer {
+								if ost.Pos() <= as.Pos() && as.End() <= ost.End() && ost != st {
+									for _, st2 := range outer[j+1:] {
+										if isSet(st2) {
+											found = true
+										}
+									}
+								}
+							}
 						}
 					}
 					if !found {
@@ -568,11 +587,19 @@ func ruleMDKEY(c *Ctx) []Obligation {
 						// nested type switch on the translated value: still the same field alternative
 						_ = cc
 					}
-					as, ok := m.(*ast.AssignStmt)
-					if !ok {
-						return true
+					var targets []ast.Expr
+					switch x := m.(type) {
+					case *ast.AssignStmt:
+						targets = x.Lhs
+					case *ast.CallExpr:
+						// filled through an out-parameter: gen.irMDTupleField(&md.Enums, …, oldField.Enums())
+						for _, a := range x.Args {
+							if u, ok := unparen(a).(*ast.UnaryExpr); ok && u.Op == token.AND {
+								targets = append(targets, u.X)
+							}
+						}
 					}
-					for _, l := range as.Lhs {
+					for _, l := range targets {
 						if n, f := c.irFieldOf(info, l); n != nil && n.Obj().Pkg().Path() == pkgMD {
 							kk := typeKey(n) + "." + f.Name()
 							if assignedUnder[kk] == nil {
